@@ -887,6 +887,124 @@ def tie_mux(case):
     return t
 
 # ---------------------------------------------------------------------------------------------
+# MatrixFourierTransform switches: Model/MftState.lean (mftHistory)  <->  the attributes of one real object after every call of a history
+
+def gen_mftstate(rng):
+    ndim = int(rng.integers(1, 3))
+    steps = []
+    for _ in range(int(rng.integers(2, 7))):
+        r = rng.random()
+        steps.append({'dir': 'f' if rng.random() < 0.5 else 'b', 'dtype': 'complex64' if rng.random() < 0.45 else 'complex128',
+                      'tensor': [] if r < 0.5 else ([2] if r < 0.75 else ([3] if r < 0.85 else [2, 2]))})
+    return {'family': 'tie-mftstate', 'ndim': ndim, 'pre': bool(rng.integers(0, 2)), 'alloc': bool(rng.integers(0, 2)),
+            'n': [int(rng.integers(1, 5)) for _ in range(ndim)], 'm': [int(rng.integers(1, 5)) for _ in range(ndim)],
+            'uniform_w': bool(rng.integers(0, 2)), 'steps': steps, 'seed': int(rng.integers(0, 2 ** 31))}
+
+
+def tie_mftstate(case):
+    import hcipy
+    t = Tie()
+    ndim, pre, alloc = case['ndim'], bool(case['pre']), bool(case['alloc'])
+    rng = np.random.default_rng(case['seed'])
+    if case['uniform_w']:
+        xs = [np.arange(n) * 0.5 - 0.25 for n in case['n']]
+        us = [np.arange(m) * 0.75 - 0.5 for m in case['m']]
+    else:
+        xs = [np.sort(rng.integers(-16, 17, size=n) / 8.0) + np.arange(n) * 0.125 for n in case['n']]
+        us = [np.sort(rng.integers(-16, 17, size=m) / 8.0) + np.arange(m) * 0.125 for m in case['m']]
+    # explicit weights (a one-sample separated axis has no spacing to derive them from): all equal -> the scalar-weights branch, else the array branch
+    nin, nout = int(np.prod(case['n'])), int(np.prod(case['m']))
+    wi = np.full(nin, 0.5) if case['uniform_w'] else rng.integers(1, 9, size=nin) / 4.0
+    wo = np.full(nout, 0.25) if case['uniform_w'] else rng.integers(1, 9, size=nout) / 4.0
+    gi = hcipy.CartesianGrid(hcipy.SeparatedCoords(xs), weights=wi)
+    go = hcipy.CartesianGrid(hcipy.SeparatedCoords(us), weights=wo)
+    ft = hcipy.MatrixFourierTransform(gi, go, precompute_matrices=pre, allocate_intermediate=alloc)
+    mats = ('M',) if ndim == 1 else ('M1', 'M2')
+    log = []          # one record per component call
+
+    def snap():
+        Ms = [getattr(ft, a, None) for a in mats]
+        ia = getattr(ft, 'intermediate_array', None)
+        return {'mdt': getattr(ft, 'matrices_dtype', None), 'Ms': Ms, 'idt': getattr(ft, 'intermediate_dtype', None), 'ia': ia}
+
+    orig_compute, orig_remove = ft._compute_matrices, ft._remove_matrices
+
+    def spy_compute(dtype):
+        before = snap()
+        orig_compute(dtype)
+        after = snap()
+        log.append({'dtype': str(np.dtype(dtype)), 'rebuilt': any(a is not b for a, b in zip(after['Ms'], before['Ms'])), 'realloc': after['ia'] is not before['ia'],
+                    'use': after})
+
+    def spy_remove():
+        orig_remove()
+        if log and 'left' not in log[-1]:
+            log[-1]['left'] = snap()
+    ft._compute_matrices, ft._remove_matrices = spy_compute, spy_remove
+
+    def name(dt):
+        return 'none' if dt is None else {'complex64': 'c64', 'complex128': 'c128'}.get(str(np.dtype(dt)), str(dt))
+
+    def show(sn):
+        ms = {name(M.dtype) if M is not None else 'none' for M in sn['Ms']}
+        return '%s,%s,%s,%s' % (name(sn['mdt']), ms.pop() if len(ms) == 1 else 'mixed', name(sn['idt']), name(sn['ia'].dtype) if sn['ia'] is not None else 'none')
+
+    ds = []
+    for si, st in enumerate(case['steps']):
+        src = gi if st['dir'] == 'f' else go
+        shp = tuple(st['tensor']) + (src.size,)
+        a = ((rng.integers(-8, 9, size=shp) + 1j * rng.integers(-8, 9, size=shp)) / 4.0).astype(st['dtype'])
+        n0 = len(log)
+        try:
+            got = np.asarray((ft.forward if st['dir'] == 'f' else ft.backward)(hcipy.Field(a.copy(), src)))
+            fresh = hcipy.MatrixFourierTransform(gi, go, precompute_matrices=True, allocate_intermediate=True)
+            ref = np.asarray((fresh.forward if st['dir'] == 'f' else fresh.backward)(hcipy.Field(a.copy(), src)))
+        except Exception as e:  # noqa
+            t.bad.append(('tie-mftstate-raises', 'MatrixFourierTransform(precompute_matrices=%s, allocate_intermediate=%s), call %d of the history raised %s: %s' % (pre, alloc, si + 1, type(e).__name__, e)))
+            return t
+        T = int(np.prod(st['tensor'])) if st['tensor'] else 1
+        what = 'MatrixFourierTransform(%d-D, precompute_matrices=%s, allocate_intermediate=%s), call %d (%s, %s, tensor %s) of a history on one object' % (
+            ndim, pre, alloc, si + 1, 'forward' if st['dir'] == 'f' else 'backward', st['dtype'], st['tensor'])
+        if len(log) - n0 != T or any('left' not in r for r in log[n0:]):
+            t.bad.append(('tie-mftstate-observe', '%s: observed %d matrix preparations for %d tensor components' % (what, len(log) - n0, T)))
+            return t
+        # oracle (independent of the model): the result is the one of a fresh object; at use the matrices and (2-D) the buffer have the precision of the call;
+        # what the switches promise: nothing kept when off, nothing rebuilt for an unchanged precision when on
+        tol = 2e-4 if st['dtype'] == 'complex64' else 1e-9
+        e = maxerr(got, ref)
+        if got.shape != ref.shape or not e <= tol * max(float(np.abs(ref).max()), 1e-300):
+            t.bad.append(('tie-mftstate-result', '%s differs from the result of a fresh object by %.3g' % (what, e)))
+        for ci, r in enumerate(log[n0:]):
+            use, left = r['use'], r['left']
+            if any(M is None or str(M.dtype) != st['dtype'] for M in use['Ms']) or (ndim == 2 and (use['ia'] is None or str(use['ia'].dtype) != st['dtype'])):
+                t.bad.append(('tie-mftstate-at-use', '%s, component %d: at use the stored matrices / intermediate array are %s' % (what, ci, show(use))))
+            if (not pre and any(M is not None for M in left['Ms'])) or (pre and any(M is None for M in left['Ms'])):
+                t.bad.append(('tie-mftstate-switch', '%s, component %d: after the call the matrices are %s' % (what, ci, 'kept' if not pre else 'dropped')))
+            if ndim == 2 and ((not alloc and left['ia'] is not None) or (alloc and left['ia'] is None)):
+                t.bad.append(('tie-mftstate-switch', '%s, component %d: after the call the intermediate array is %s' % (what, ci, 'kept' if not alloc else 'dropped')))
+            prev = log[n0 + ci - 1] if n0 + ci > 0 else None
+            if pre and prev is not None and prev['dtype'] == r['dtype'] and r['rebuilt']:
+                t.bad.append(('tie-mftstate-switch', '%s, component %d: the precomputed matrices were rebuilt although the precision did not change' % (what, ci)))
+            ds.append(0 if st['dtype'] == 'complex64' else 1)
+    t.lines.append('C01 mftstate %d %d %d [%s]' % (int(pre), int(alloc), ndim, ','.join(str(d) for d in ds)))
+    observed = ['%d%d/%s/%s' % (int(r['rebuilt']), int(r['realloc']), show(r['use']), show(r['left'])) for r in log]
+
+    def check(rs):
+        r = rs[0]
+        if not r.startswith('ok'):
+            return 'model mftstate: %s' % r
+        model = r.split()[1:]
+        if model != observed:
+            k = next((i for i, (a, b) in enumerate(zip(model, observed)) if a != b), min(len(model), len(observed)))
+            return ('MatrixFourierTransform(%d-D, precompute_matrices=%s, allocate_intermediate=%s): component call %d of the history %s — rebuilt/realloc / state at use / state left: '
+                    'implementation %s, model %s' % (ndim, pre, alloc, k + 1, ds, observed[k] if k < len(observed) else None, model[k] if k < len(model) else None))
+        return None
+    t.check = check
+    t.counts = ['tie-mftstate:%dD' % ndim, 'tie-mftstate:pre=%d,alloc=%d' % (pre, alloc), 'tie-mftstate:precision-changes=%d' % sum(1 for a, b in zip(ds, ds[1:]) if a != b)]
+    t.sig = ('tie-mftstate', ndim, pre, alloc, tuple(ds))
+    return t
+
+# ---------------------------------------------------------------------------------------------
 # get_fft_parameters ∘ FastFourierTransform: getFftParameters + plan (AxisReproduced, FftValuePre)  <->  the grid the re-built FFT reports
 
 def gen_roundtrip(rng):
@@ -1098,9 +1216,16 @@ def tie_select(case):
 
 GEN = {'tie-mft': (gen_mft, tie_mft), 'tie-czt': (gen_czt, tie_czt), 'tie-zoom': (gen_zoom, tie_zoom), 'tie-zoomaxes': (gen_zoomaxes, tie_zoomaxes),
        'tie-state': (gen_state, tie_state), 'tie-lit': (gen_lit, tie_lit), 'tie-select': (gen_select, tie_select),
-       'tie-roundtrip': (gen_roundtrip, tie_roundtrip), 'tie-fftw': (gen_fftw, tie_fftw), 'tie-nft': (gen_nft, tie_nft), 'tie-mux': (gen_mux, tie_mux)}
+       'tie-roundtrip': (gen_roundtrip, tie_roundtrip), 'tie-fftw': (gen_fftw, tie_fftw), 'tie-nft': (gen_nft, tie_nft), 'tie-mux': (gen_mux, tie_mux), 'tie-mftstate': (gen_mftstate, tie_mftstate)}
 
 DIRECTED = [
+    {'family': 'tie-mftstate', 'ndim': 2, 'pre': True, 'alloc': True, 'n': [3, 2], 'm': [2, 3], 'uniform_w': True, 'seed': 1,
+     'steps': [{'dir': 'f', 'dtype': 'complex128', 'tensor': []}, {'dir': 'b', 'dtype': 'complex64', 'tensor': [2]}, {'dir': 'f', 'dtype': 'complex64', 'tensor': []},
+               {'dir': 'b', 'dtype': 'complex128', 'tensor': [2, 2]}]},
+    {'family': 'tie-mftstate', 'ndim': 2, 'pre': True, 'alloc': False, 'n': [2, 2], 'm': [3, 1], 'uniform_w': False, 'seed': 2,
+     'steps': [{'dir': 'b', 'dtype': 'complex64', 'tensor': []}, {'dir': 'f', 'dtype': 'complex128', 'tensor': [3]}, {'dir': 'f', 'dtype': 'complex64', 'tensor': []}]},
+    {'family': 'tie-mftstate', 'ndim': 1, 'pre': False, 'alloc': True, 'n': [4], 'm': [3], 'uniform_w': False, 'seed': 3,
+     'steps': [{'dir': 'f', 'dtype': 'complex64', 'tensor': [2]}, {'dir': 'b', 'dtype': 'complex128', 'tensor': []}]},
     {'family': 'tie-mux', 'x': [[-0.5, 0.25, 1.0]], 'u': [[-1.0, 0.5]], 'w_in': [0.5, 0.25, 1.0], 'w_out': [1.0, 0.5], 'tensor': [2, 1, 3], 't': 5, 'j': 1, 'k': 0, 'seed': 1},
     {'family': 'tie-mux', 'x': [[-0.5, 0.25], [0.0, 1.5]], 'u': [[-1.0, 0.5, 2.0], [0.25, 0.0, -0.75]], 'w_in': [0.5, 0.25], 'w_out': [1.0, 0.5, 0.125], 'tensor': [3], 't': 2, 'j': 0, 'k': 2, 'seed': 2},
     {'family': 'tie-zoomaxes', 'r': 1, 'ndim': 2, 'dir': 'fwd', 'seed': 1},        # D5: tensor field on a 2-D grid
